@@ -1,0 +1,19 @@
+//go:build verif
+
+package avc
+
+// VerifStartCode is the exported form of one entry found by the start-code scanner.
+type VerifStartCode struct {
+	Len int // start code length (3 or 4)
+	Pos int // position of the first NAL unit byte after the start code
+}
+
+// VerifStartCodePositions exposes the unexported word-at-a-time Annex B start-code scanner
+// (getStartCodePositions) to the verification harness. It adds no behaviour.
+func VerifStartCodePositions(stream []byte) (scs []VerifStartCode, minStartCodeLength int) {
+	internal, minLen := getStartCodePositions(stream)
+	for _, s := range internal {
+		scs = append(scs, VerifStartCode{Len: s.startCodeLength, Pos: s.startPos})
+	}
+	return scs, minLen
+}
